@@ -174,8 +174,10 @@ EV_NAMES = {0: "Evolve0", 1: "Evolve1", 2: "Evolve2", 3: "QRUp", 4: "AbsorbUp", 
 def coq_event(e):
     c, a, b, cc, t = e
     z = "(%d)%%Z" % t
-    if c in (0, 1, 2):
+    if c in (0, 1):
         return "%s %d %s" % (EV_NAMES[c], a, z)
+    if c == 2:
+        return "Evolve2 %d %d %s" % (a, b, z)
     if c in (3, 4):
         return "%s %d %d" % (EV_NAMES[c], a, b)
     if c in (5, 6, 8):
@@ -194,7 +196,7 @@ Local Open Scope Z_scope.
 Definition zn (n : nat) : Z := Z.of_nat n.
 Definition enc (e : event) : list Z :=
   match e with
-  | Evolve0 a t => [0; zn a; 0; 0; t] | Evolve1 a t => [1; zn a; 0; 0; t] | Evolve2 a t => [2; zn a; 0; 0; t]
+  | Evolve0 a t => [0; zn a; 0; 0; t] | Evolve1 a t => [1; zn a; 0; 0; t] | Evolve2 a p t => [2; zn a; zn p; 0; t]
   | QRUp c p => [3; zn c; zn p; 0; 0] | AbsorbUp c p => [4; zn c; zn p; 0; 0]
   | QRDown p i c => [5; zn p; zn i; zn c; 0] | AbsorbDown p i c => [6; zn p; zn i; zn c; 0]
   | EnvChild c => [7; zn c; 0; 0; 0] | EnvParent p i c => [8; zn p; zn i; zn c; 0]
@@ -258,6 +260,25 @@ def run(ctx):
         c["tau"] = [0.125, 0.0]
         c["m"] = 2
         cases.append(c)
+    # purified states (auxiliary space): same schedule expected; real and imaginary time, both schemes
+    base = len(cases)
+    for j in range(6 if quick else 24):
+        c = gen_tree_case(rng, base + j, n=2 + (j % 4), shape=["linear", "star", "random", "binary"][j % 4],
+                          kind=["spin", "hcb"][j % 2], max_dofs=6, allow_dummy=(j % 3 == 0))
+        c["method"] = ["ps", "ps2"][(j // 2) % 2]
+        c["tau"] = [0.0, -0.125] if j % 2 else [0.125, 0.0]
+        c["m"] = rng.choice([2, 3])
+        c["aux"] = True
+        cases.append(c)
+    # tiny trees in a particle-number sector: the local Krylov spaces are exhausted after 1-3 vectors
+    base = len(cases)
+    for j in range(4 if quick else 12):
+        c = gen_tree_case(rng, base + j, n=2 + (j % 2), shape="linear" if j % 4 < 2 else "star", kind=["hcb", "holstein"][(j // 2) % 2],
+                          max_dofs=4, allow_dummy=False)
+        c["method"] = ["ps", "ps2"][j % 2]
+        c["tau"] = [0.25, 0.0] if j % 3 else [0.0, -0.25]
+        c["m"] = 4
+        cases.append(c)
     chain_cases = []
     for i in range(8 if quick else 40):
         n = 2 + (i % 5)
@@ -278,7 +299,9 @@ def run(ctx):
         lines = [PREAMBLE]
         for i, (c, r) in enumerate(zip(cases, res["tree"])):
             if "error" in r:
-                corr_bad.append({"what": "implementation raised on a tree case", "case": c["id"], "error": r["error"], "tb": r["tb"]})
+                corr_bad.append({"what": "implementation raised on a tree case", "case": c["id"], "error": r["error"], "tb": r["tb"],
+                                 "run_case": {"kind": "run", "id": c["id"], "tree": c["tree"], "terms": c["terms"], "qntot": c.get("qntot", 0),
+                                              "method": c["method"], "tau": c["tau"], "m": c["m"], "aux": bool(c.get("aux")), "np_seed": r.get("np_seed")}})
                 continue
             T = coq_tree(c["tree"])
             lines.append("Definition T%d := %s." % (i, T))
@@ -304,8 +327,9 @@ def run(ctx):
                 pos += 2
                 impl_flat = [x for e in r["events"] for x in e]
                 n_eval += 1
-                key = (c["shape"], c["n"], c["method"], "imag" if c["tau"][1] else "real")
-                hist["%s/%s" % (c["shape"], c["method"])] = hist.get("%s/%s" % (c["shape"], c["method"]), 0) + 1
+                key = (c["shape"], c["n"], c["method"], ("imag" if c["tau"][1] else "real") + ("/aux" if c.get("aux") else ""))
+                hk = "%s/%s%s%s" % (c["shape"], c["method"], "/imag" if c["tau"][1] else "", "/aux" if c.get("aux") else "")
+                hist[hk] = hist.get(hk, 0) + 1
                 bad = None
                 if not r["ids_ok"]:
                     bad = "node numbering of the implementation is not the pre-order of the case"
@@ -412,14 +436,27 @@ def run(ctx):
         c = gen_tree_case(rng, 0, n=rng.randrange(2, 4), shape=["linear", "star", "random"][i % 3], kind=kind, max_dofs=3)
         c.update({"kind": "aux", "methods": ["ps", "ps2", "pc"] + (["vmf"] if i == 0 else []), "imag": [False, True], "step": 0.1})
         add(c)
+    for i in range(2 if quick else 8):
+        kind = ["spin", "hcb"][i % 2]
+        c = gen_tree_case(rng, 0, n=rng.randrange(2, 5), shape=["random", "linear", "star"][i % 3], kind=kind, max_dofs=4)
+        c.update({"kind": "coeff", "methods": ["ps", "ps2", "pc", "vmf"], "imag": [False, True], "step": 0.05,
+                  "coeffs": [[2.0, 0.0], [0.0, 0.5]] if i % 2 == 0 else [[-0.25, 0.0], [1.5, -2.0]]})
+        add(c)
+    # tiny trees in a number sector: local invariant blocks of dimension 1..6 (Lanczos stops by exhaustion of the Krylov space)
+    for i in range(3 if quick else 12):
+        c = gen_tree_case(rng, 0, n=2 + (i % 2), shape="linear" if i % 3 else "star", kind=["hcb", "holstein", "hcb"][i % 3], max_dofs=4,
+                          allow_dummy=False)
+        c.update({"kind": "exact", "methods": ["ps", "ps2"], "imag": [False, True], "steps": [0.4, 0.2, 0.1], "nsteps": 3})
+        add(c)
     # one case per process (start-up ~3 s each); generous time-out: a loaded machine must not look like a hang
     shards = [{"seed": ctx.seed, "cases": [c]} for c in ocases]
     ores = ctx.impl_par("c12_oracle.py", shards, timeout=3000, par=16)
     oracle_fail = []
     oracle_runs = 0
-    ostats = {"exact": 0, "small": 0, "chain": 0, "aux": 0}
+    ostats = {"exact": 0, "small": 0, "chain": 0, "aux": 0, "coeff": 0, "run": 0}
     worst = {}
     regimes = {"exact_complete": 0, "second_order_after_bond_shrink": 0}
+    ratios = {}
     by_id = {c["id"]: c for c in ocases}
     for (rc_, r_, out_), sh in zip(ores, shards):
         if r_ is None:
@@ -439,6 +476,8 @@ def run(ctx):
             for k_, v_ in (st.get("diffs") or {}).items():
                 worst["chain:" + k_.split("/")[0]] = max(worst.get("chain:" + k_.split("/")[0], 0.0), v_)
             if item["kind"] == "exact":
+                for m_, rs_ in (st.get("halving_ratios") or {}).items():
+                    ratios.setdefault(m_, []).extend(rs_)
                 regimes["exact_complete" if not st.get("ps_shrunk") else "second_order_after_bond_shrink"] += 1
             if item["kind"] == "small" and "reversal_dev" in st:
                 k_ = "reversal_chain" if st.get("chain") else "reversal_branching(informational)"
@@ -447,6 +486,8 @@ def run(ctx):
                 ctx.notes.append("small-bond case %s was not actually truncated" % item["id"])
             for f in item["fails"]:
                 oracle_fail.append({"case": by_id[item["id"]], "fail": f})
+    ctx.notes.append("error ratio on halving the step (incomplete tangent projector; 8 = locally third order, 4 = locally second order): "
+                     + json.dumps({k: [float("%.3g" % min(v)), float("%.3g" % max(v))] for k, v in sorted(ratios.items())}))
     ctx.notes.append("oracle worst deviations: " + json.dumps({k: float("%.3g" % v) for k, v in sorted(worst.items())}))
     # ---- 4. verdict
     lib_src = open(os.path.join(HARN, "impl", "c12_lib.py")).read()
@@ -487,9 +528,17 @@ def run(ctx):
             k = b["what"].split(" at event")[0].split(":")[0][:70]
             kinds_.setdefault(k, []).append(b)
         for k, bl in sorted(kinds_.items()):
-            # the trace mismatch itself is a failing input of the correspondence; a dense failing input, if any, was reported above
+            # the trace mismatch itself is a failing input of the correspondence; a dense failing input, if any, was reported above.
+            # A case on which the implementation raised IS a concrete failing input: confirm it stand-alone and attach the repro
+            found, repro, first = False, None, bl[0]
+            for b in bl[:4]:
+                if "run_case" in b:
+                    rc_, r_, _ = ctx.impl("c12_oracle.py", {"seed": ctx.seed, "cases": [b["run_case"]]}, timeout=900)
+                    if r_ and r_[0]["fails"]:
+                        found, repro, first = True, repro_for(b["run_case"]), dict(b, confirmed=r_[0]["fails"][0])
+                        break
             ctx.violation("trace:" + k.replace(" ", "-"), "correspondence event-trace (Model/TreeSweep.v vs tn/time_evolution.py): " + bl[0]["what"],
-                          {"n": len(bl), "first": bl[0]}, found=False)
+                          {"n": len(bl), "first": first}, found=found, repro=repro)
     dist = {"trace_cases": hist, "oracle_cases": ostats, "chain_trace_cases": len(chain_cases), "projector_splitting_regimes": regimes}
     return {"evaluations": n_eval + oracle_runs, "distinct_nontrivial": len(nontriv),
             "rule": "a trace case counts once per distinct (children-count profile in pre-order, scheme, real/imag) whose logged event sequence"
